@@ -3,11 +3,12 @@
 writes out/<ID>/confirm.json. Runs entirely inside the scratch worktree."""
 import json, os, subprocess, sys, re
 W = sys.argv[1]
+OUTDIR = sys.argv[2] if len(sys.argv) > 2 else 'out'
 def sh(cmd):
     r = subprocess.run(cmd, shell=True, cwd=W, capture_output=True, text=True, env={**os.environ, 'CARGO_NET_OFFLINE': 'true'})
     return r.returncode, (r.stdout + r.stderr)[-1500:]
-for i in sorted(os.listdir(f'{W}/out')):
-    d = f'{W}/out/{i}'
+for i in sorted(os.listdir(f'{W}/{OUTDIR}')):
+    d = f'{W}/{OUTDIR}/{i}'
     if not os.path.isdir(d) or not os.path.exists(f'{d}/patch.diff'): continue
     meta = json.load(open(f'{d}/meta.json'))
     cmd = meta.get('demo_command')
@@ -20,7 +21,7 @@ for i in sorted(os.listdir(f'{W}/out')):
     res = {'id': i, 'demo_command': cmd}
     if not cmd or not os.path.exists(demo):
         res['error'] = 'no demo command / demo.diff'; json.dump(res, open(f'{d}/confirm.json', 'w')); print(i, 'NO-DEMO'); continue
-    sh('git checkout -- . && git clean -fdq -e out')
+    sh('git checkout -- . && git clean -fdq -e out -e out4 -e "out_*"')
     rc, o = sh(f'git apply {demo}')
     if rc != 0: res['error'] = 'demo.diff does not apply: ' + o[-300:]
     else:
@@ -31,6 +32,6 @@ for i in sorted(os.listdir(f'{W}/out')):
         else:
             rc2, o2 = sh(cmd + ' 2>&1 | tail -25')
             res.update({'passes_on_unchanged_tree': base_ok, 'fails_with_patch': ('FAILED' in o2 or 'panicked' in o2 or 'error: test failed' in o2), 'unchanged_tail': o1[-300:], 'patched_tail': o2[-500:]})
-    sh('git checkout -- . && git clean -fdq -e out')
+    sh('git checkout -- . && git clean -fdq -e out -e out4 -e "out_*"')
     json.dump(res, open(f'{d}/confirm.json', 'w'), indent=1)
     print(i, res.get('passes_on_unchanged_tree'), res.get('fails_with_patch'), res.get('error'))
